@@ -219,7 +219,7 @@ def run(c) -> CaseResult:
         P = dict(final.named_parameters())
         fr = prep(inputs)
         with patch("torch.randint", pinned):
-            yr = dsl.evaluate(prog, P, fr, mode)
+            yr = dsl.evaluate(prog, dsl.named_tensors(final), fr, mode)
             gr = torch.autograd.grad(yr, [fr[k] for k in FLOAT_INPUTS if k in fr] + list(P.values()), allow_unused=True)
         ref = (yr.detach(), dict(zip(["input:" + k for k in FLOAT_INPUTS if k in fr] + list(P.keys()), gr)))
         lossy_sr = qname in ("fp8", "e4m3-sr3", "e5m2-nearest")
@@ -249,7 +249,12 @@ def run(c) -> CaseResult:
     # ---- track_scales / compile at the end change nothing
     if c["end"]:
         rb = run_once(mods[len(chain)], inputs)
-        d = same_result(rb, results[0], tol=None if c["end"] == "track_scales" else 1e-5)
+        tol_end = None if c["end"] == "track_scales" else 1e-5
+        if c["end"] == "track_scales" and prog is not None and dsl.grad_fanout(prog) >= 3:
+            # >= 3 gradient contributions to one tensor: tracking changes their accumulation order (last-ulp differences,
+            # see C18's known finding); with quantisation in the chain an ulp can flip a rounding decision, so only compare without
+            tol_end = "skip" if qname else 1e-5
+        d = None if tol_end == "skip" else same_result(rb, results[0], tol=tol_end)
         if d:
             res.fail(f"C17.end-transform-changes-result:{c['end']}", f"{d} differs with {c['end']} appended to {'>'.join(chain)}\n{src}")
     res.nontrivial = len(full) >= 2
